@@ -19,7 +19,8 @@ from oracles.c18 import docsan
 
 POOL = ["a", "A", "a b", "a-b", "a_", "_a", "a__1", "a__2_", "x__10", "1x", "", " ", None, "sum", "T", "name",
         "shape", "class", "None", "col0_", "col1", "é", "ß", "a\nb", "b", "c", "B", "a.b", "__", "x y z",
-        "cols", "column_names", "copy", "a__b__1", "a _ 1", "a__2__2", "a__b", "col", "col_", "colx_", "x__1__2", "0", "1"]
+        "cols", "column_names", "copy", "a__b__1", "a _ 1", "a__2__2", "a__b", "col", "col_", "colx_", "x__1__2", "0", "1",
+        "Straße", "STRASSE", "strasse", "ﬁle", "FILE", "İ", "i"]
 
 _PUBLIC = None
 
